@@ -15,7 +15,8 @@ From Coercion.Query Require Import Rows Query Spec.
 
 Definition result_eqb (a b : result) : bool :=
   N.eqb (x_id a) (x_id b) && N.eqb (x_group a) (x_group b) && N.eqb (x_name a) (x_name b)
-  && N.eqb (x_descr a) (x_descr b) && Z.eqb (x_submit a) (x_submit b) && N.eqb (x_status a) (x_status b).
+  && N.eqb (x_descr a) (x_descr b) && Z.eqb (x_submit a) (x_submit b) && N.eqb (x_status a) (x_status b)
+  && Z.eqb (x_start a) (x_start b) && Z.eqb (x_end a) (x_end b).
 
 Definition mem_result (x : result) (l : list result) : bool := existsb (result_eqb x) l.
 
@@ -122,7 +123,7 @@ Definition binds_eqb (a b : binds) : bool :=
 Definition row_eqb (a b : row) : bool :=
   N.eqb (r_id a) (r_id b) && N.eqb (r_group a) (r_group b) && N.eqb (r_name a) (r_name b)
   && N.eqb (r_descr a) (r_descr b) && Z.eqb (r_submit a) (r_submit b) && N.eqb (r_status a) (r_status b)
-  && N.eqb (r_swarm a) (r_swarm b).
+  && Z.eqb (r_start a) (r_start b) && Z.eqb (r_end a) (r_end b) && N.eqb (r_swarm a) (r_swarm b).
 
 (* the vault's own swarm replaces the hook's (the hook builds the text with a zero reader) *)
 Definition with_swarm (w : N) (b : binds) : binds :=
@@ -151,7 +152,7 @@ Record cstate := {
 }.
 
 Definition op_id (o : op) : N :=
-  match o with OCreate r => r_id r | OUpdate id _ _ => id | ODelete id => id end.
+  match o with OCreate r => r_id r | OUpdate id _ _ _ _ => id | ODelete id => id end.
 
 Definition find_row (id : N) (tb : table) : option row := find (has_id id) tb.
 
@@ -209,7 +210,7 @@ Definition step_check (be : backend) (w : N) (i : nat) (s : cstate) (t : step) :
       let mtr := match be with Sqlite => sq_list limit (st_sq s) | Cosmos => cosmos_list w limit (st_cs s) end in
       let all := match be with Sqlite => st_sq s | Cosmos => cs_search (st_cs s) end in
       (s, if list_ok ordered limit (st_sp s) o
-          then (if stream_clean (sobs_of (Some mtr)) && list_items_ok ordered limit (map result_of_row all) (o_items o)
+          then (if stream_clean (sobs_of (Some mtr)) && list_items_ok ordered limit (map (match be with Sqlite => sq_result_of_row | Cosmos => result_of_row end) all) (o_items o)
                 then [] else fail 1 i 5)
           else fail 2 i 5)
   | TQuery f q b =>
